@@ -7,10 +7,21 @@ open Elvis.Dns
 
 structure St where
   rogue : String := "none"
-  records : List (Bytes × Addr) := []
+  /-- registrations, latest first -/
+  recordsRev : List (Bytes × Addr) := []
   nclients : Nat := 0
-  plan : List (Nat × Bytes) := []
+  /-- planned lookups, latest first -/
+  planRev : List (Nat × Bytes) := []
+  /-- `sys` has been initialised from the configuration lines -/
+  ready : Bool := false
   sys : Sys := init [] 0
+
+def St.records (st : St) : List (Bytes × Addr) := st.recordsRev.reverse
+def St.plan (st : St) : List (Nat × Bytes) := st.planRev.reverse
+
+/-- initialise the system from the configuration lines at the first operation line -/
+def St.ensure (st : St) : St :=
+  if st.ready then st else { st with ready := true, sys := init (serverTable st.records) st.nclients }
 
 def parseAddr (s : String) : Option Addr :=
   match (s.splitOn ".").mapM (·.toNat?) with
@@ -62,24 +73,37 @@ def rogueReply (kind : String) (q : Bytes) : Option Bytes :=
     else if kind == "short" then some (q.take 20)
     else some (replyBytes id name name six)
 
-/-- what the server side answers to a query datagram -/
-def serverAnswer (st : St) (table : Table) (q : Bytes) : Except String (Option Bytes) :=
-  if st.rogue == "none" then (respond table q).map some else .ok (rogueReply st.rogue q)
+/-- deliver the oldest datagram in flight until nothing is left (bounded) -/
+def settle (s : Sys) : Nat → Sys
+  | 0 => s
+  | fuel + 1 => if s.net.isEmpty || s.crashed.isSome then s else settle (Elvis.Dns.step s (.deliver 0)) fuel
 
 /-- `expect-died` (the real process died): which planned lookup ends the process, and how?
-    (first one in plan order) -/
+    The planned lookups are run through the model one after the other, each to completion
+    (which panic a lookup leads to does not depend on the interleaving: names that end the
+    process are never cached, and the port counter only counts misses). -/
 def expectLine (st : St) (table : Table) : String :=
-  let rec go : List (Nat × Bytes) → String
-    | [] => "alive"
-    | (_, name) :: r =>
-      match serverAnswer st table (queryBytes name 0) with
-      | .error e => "died " ++ e
-      | .ok none => go r
-      | .ok (some rep) =>
-        match onReply [] name rep with
-        | .error e => "died " ++ e
-        | .ok _ => go r
-  go st.plan
+  if st.rogue == "none" then
+    let s := st.plan.foldl (fun s p =>
+      if s.crashed.isSome then s else
+        -- the log and the sockets that are done are not read by later steps: drop them (keeps
+        -- long plans linear)
+        let s' := settle (Elvis.Dns.step s (.lookup p.1 p.2 0)) 8
+        { s' with events := [], socks := s'.socks.filter (fun so => !so.done) }) (init table st.nclients)
+    match s.crashed with
+    | some e => "died " ++ e
+    | none => "alive"
+  else
+    let rec go : List (Nat × Bytes) → String
+      | [] => "alive"
+      | (_, name) :: r =>
+        match rogueReply st.rogue (queryBytes name 0) with
+        | none => go r
+        | some rep =>
+          match onReply [] name rep with
+          | .error e => "died " ++ e
+          | .ok _ => go r
+    go st.plan
 
 def findIdx (net : List Datagram) (p : Datagram → Bool) : Option Nat :=
   let rec go (i : Nat) : List Datagram → Option Nat
@@ -87,22 +111,22 @@ def findIdx (net : List Datagram) (p : Datagram → Bool) : Option Nat :=
     | d :: r => if p d then some i else go (i + 1) r
   go 0 net
 
-def step (st : St) (ws : List String) : St × String :=
+def step (st0 : St) (ws : List String) : St × String :=
+  let st := match ws with
+    | "lookup" :: _ | "deliver" :: _ | "drop" :: _ | "end" :: _ => st0.ensure
+    | _ => st0
   match ws with
   | ["case", id] => ({}, s!"case {id}")
   | "cfg" :: rest => ({ st with rogue := (kvOf rest "rogue").getD "none" }, "cfg")
   | ["rec", n, a] =>
     match Driver.parseHex n, parseAddr a with
-    | some nb, some ad =>
-      let recs := st.records ++ [(nb, ad)]
-      ({ st with records := recs, sys := init (serverTable recs) st.nclients }, "rec")
+    | some nb, some ad => ({ st with recordsRev := (nb, ad) :: st.recordsRev, ready := false }, "rec")
     | _, _ => (st, "bad-op")
   | ["clients", n] =>
-    let k := n.toNat?.getD 0
-    ({ st with nclients := k, sys := init (serverTable st.records) k }, "clients")
+    ({ st with nclients := n.toNat?.getD 0, ready := false }, "clients")
   | ["plan", c, _t, n] =>
     match c.toNat?, Driver.parseHex n with
-    | some cc, some nb => ({ st with plan := st.plan ++ [(cc, nb)] }, "plan")
+    | some cc, some nb => ({ st with planRev := (cc, nb) :: st.planRev }, "plan")
     | _, _ => (st, "bad-op")
   | ["expect-died"] => (st, expectLine st (serverTable st.records))
   | ["lookup", c, n, id] =>
@@ -188,6 +212,6 @@ def step (st : St) (ws : List String) : St × String :=
   | _ => (st, "bad-op")
 
 def dispatch (sub : String) (i o : IO.FS.Stream) : Option (IO Unit) :=
-  if sub == "c20" then some (Driver.loop i o step {}) else none
+  if sub == "c20" || sub == "c20-ports" then some (Driver.loop i o step {}) else none
 
 end Driver.C20
